@@ -585,6 +585,22 @@ pub fn varying_visits() -> Tree {
     )
 }
 
+/// player two's move (r dominated) is hidden from player one, whose infoset K has one node below
+/// each; below K's node under l lies a further own infoset Jl (then player two's y), below the one
+/// under r a different own infoset Jr: when r has probability exactly 0, Jr is wholly unreachable
+/// while K is not
+pub fn hidden_then_own() -> Tree {
+    use crate::tree::{p, t};
+    p(
+        1,
+        "z",
+        vec![
+            ("l", p(0, "K", vec![("A", p(0, "Jl", vec![("c", p(1, "y", vec![("u", t(2.0)), ("v", t(-1.0))])), ("d", p(1, "y", vec![("u", t(-1.0)), ("v", t(1.0))]))])), ("B", t(0.0))])),
+            ("r", p(0, "K", vec![("A", p(0, "Jr", vec![("e", t(3.0)), ("f", t(2.5))])), ("B", t(2.0))])),
+        ],
+    )
+}
+
 /// a ladder: at each level the mover (player one throughout) either stops at one of `actions - 1`
 /// terminals or climbs on; own reach under the uniform strategy is actions^-level
 pub fn ladder(levels: usize, actions: usize) -> Tree {
@@ -619,5 +635,6 @@ pub fn families() -> Vec<(String, Tree)> {
     res.push(("two_level_own_chance".to_string(), two_level_own(true)));
     res.push(("two_level_own_p2".to_string(), two_level_own(false)));
     res.push(("varying_visits".to_string(), varying_visits()));
+    res.push(("hidden_then_own".to_string(), hidden_then_own()));
     res
 }
